@@ -641,7 +641,10 @@ def run_function1(ub, fs, tier='quick', solver=None, extra_defs=(), vacuity=True
         raise Undecided('solver-error', '%s: unparsable cbmc output: %s\n%s' % (fs.name, e, (so + se)[-2000:]))
     if res is None:
         raise Undecided('solver-error', '%s: cbmc gave no result (rc=%d): %s' % (fs.name, rc, ' | '.join(msgs)[-2000:]))
-    bad = [r for r in res if r.get('status') not in ('SUCCESS', 'FAILURE')]
+    # UNKNOWN next to a FAILURE is cbmc's assert-then-assume (points behind a failed assertion);
+    # ERROR, or UNKNOWN without any FAILURE (out of memory, solver error), decides nothing
+    anyfail = any(r.get('status') == 'FAILURE' for r in res)
+    bad = [r for r in res if r.get('status') not in ('SUCCESS', 'FAILURE') and not (anyfail and r.get('status') == 'UNKNOWN')]
     if bad or rc not in (0, 10):
         # out of memory / solver error: statuses ERROR or UNKNOWN decide nothing
         raise Undecided('solver-error', '%s: cbmc (%s) rc=%d, %d obligations without a verdict: %s' % (
@@ -697,7 +700,7 @@ def run_function1(ub, fs, tier='quick', solver=None, extra_defs=(), vacuity=True
             resv, _, _ = parse_cbmc_json(so)
         except Exception as e:
             raise Undecided('solver-error', '%s: unparsable vacuity output' % fs.name)
-        if rc not in (0, 10) or any(r.get('status') not in ('SUCCESS', 'FAILURE') for r in resv or []):
+        if rc not in (0, 10) or any(r.get('status') == 'ERROR' for r in resv or []):
             raise Undecided('solver-error', '%s: vacuity run gave no verdict (rc=%s): %s' % (fs.name, rc, (so + se)[-400:]))
         cov = []
         for r in resv or []:
